@@ -179,6 +179,18 @@ def prop_assign(case):
     except Exception as e:
         raise Violation("carrier", "carrier line %r rejected: %s" % (text, e))
     n_valid = n_invalid = 0
+    try:
+        line.validate()
+    except Exception as e:
+        raise Violation("carrier", "carrier line %r fails validate(): %s" % (text, e))
+    if case.get("new_tag") and len(slot) == 1:
+        # the values go to a tag the line does not have yet (with the datatype of the slot declared)
+        fn = "zq"
+        try:
+            if slot != "Z":  # (a string value gets the datatype Z by itself: the tag is really new to the line)
+                line.set_datatype(fn, dt)
+        except Exception as e:
+            raise Violation("carrier", "set_datatype(%r, %r) raised %s" % (fn, dt, e))
     for step, s in enumerate(case["values"]):
         if not c04.model_judged(slot, s) or s == "":
             continue
@@ -222,14 +234,55 @@ def prop_assign(case):
                     rep = True
                 if not rep:
                     raise Violation("invalid-passes-validate_field", "%s: validate_field raises nothing" % ctx, slot)
+                try:
+                    line.validate()
+                    rep = False
+                except Exception:
+                    rep = True
+                if not rep:
+                    raise Violation("invalid-passes-validate", "%s: validate() of the line raises nothing" % ctx, slot)
                 if vlevel >= 2 and not reported_at_write(line, fn):
                     raise Violation("invalid-written", "%s: written without report at vlevel %d: %r" % (ctx, vlevel, str(line)), slot)
                 # put a valid value back so that the next step starts clean
                 try:
                     line.set(fn, init)
+                    line.validate()
                 except Exception as e:
                     raise Violation("recover", "%s: cannot assign the valid value %r afterwards: %s" % (ctx, init, e), slot)
-    return {"nt": n_valid >= 1 and n_invalid >= 1 and dt not in ("Z", "A"), "slot": slot, "vlevel": vlevel}
+    inplace = None
+    if case.get("inplace") and slot in ("B", "alignment_gfa1", "alignment_gfa2"):
+        # the decoded value of the field is edited in place until it is no value of the datatype any more and the
+        # very same object is assigned back: that is an assignment like any other
+        try:
+            line.set(fn, init)
+            v = line.get(fn)
+            if slot == "B":
+                v.append(2.5 if not isinstance(v[0], float) else "x")
+            elif isinstance(v, gfapy.CIGAR) and len(v):
+                v[0].code = "?"
+            else:
+                v = None
+        except Exception:
+            v = None
+        if v is not None:
+            inplace = slot
+            ctx = "slot %s vlevel %d: the value read from %s, edited in place to %r and assigned back" % (slot, vlevel, fn, v)
+            try:
+                line.set(fn, v)
+                raised = None
+            except Exception as e:
+                raised = e
+            if vlevel >= 3 and raised is None:
+                raise Violation("invalid-not-reported-at-set", "%s: assignment at vlevel 3 raised nothing" % ctx, slot + "/inplace")
+            if raised is None:
+                try:
+                    line.validate_field(fn)
+                    raise Violation("invalid-passes-validate_field", "%s: validate_field raises nothing" % ctx, slot + "/inplace")
+                except Violation:
+                    raise
+                except Exception:
+                    pass
+    return {"nt": n_valid >= 1 and n_invalid >= 1 and dt not in ("Z", "A"), "slot": slot, "vlevel": vlevel, "new_tag": bool(case.get("new_tag")), "inplace": inplace}
 
 
 def edits(r, v, alpha):
@@ -264,7 +317,8 @@ def st_assign(draw):
              "position_gfa2": ["$", "-1", "5$$"], "alignment_gfa2": ["1S", "5=", "1,-2"]}
     if slot in extra and gen.chance(r, 0.5):
         vals.insert(r.randint(0, len(vals)), gen.choice(r, extra[slot]))
-    return {"slot": slot, "vlevel": r.randrange(4), "values": vals, "via": gen.choice(r, ["set", "attr"])}
+    return {"slot": slot, "vlevel": r.randrange(4), "values": vals, "via": gen.choice(r, ["set", "attr"]),
+            "new_tag": gen.chance(r, 0.3), "inplace": gen.chance(r, 0.4)}
 
 
 # ---------------------------------------------------------------- typed programs, all levels
